@@ -15,7 +15,7 @@ def agent_trend(result: OptimizationResult, idx: int, iters: list[int] | None = 
     if iters is None:
         iters = range(0, len(result.evolution))
 
-    return [sort_by_cost(result.evolution[i].agents)[idx].cost for i in iters]
+    return [sort_by_cost(result.evolution[i].agents, result.task_type)[idx].cost for i in iters]
 
 
 def best_agent_trend(result: OptimizationResult, iters: list[int] | None = None) -> list[float]:
@@ -45,7 +45,7 @@ def agent_position(result: OptimizationResult, idx: int, iters: list[int] | None
     if iters is None:
         iters = range(0, len(result.evolution))
 
-    return [sort_by_cost(result.evolution[i].agents)[idx].position for i in iters]
+    return [sort_by_cost(result.evolution[i].agents, result.task_type)[idx].position for i in iters]
 
 
 def best_agent_position(result: OptimizationResult, iters: list[int] | None = None) -> list[list[float | int]]:
